@@ -203,7 +203,7 @@ def c20(tier, seed):
                    rule='%d public headers: names (%d object-like integer macros, enumerators, struct typedefs) attributed to their '
                         'defining header from gcc -E -dD output; each header alone, every ordered pair (exhaustive) and %d larger sets/'
                         'orders are turned into a translation unit that prints every owned name (values, sizeof, offsetof), compiled '
-                        'as C99 (gcc) and C++17 (g++), linked against the library and executed; every printed value must equal the '
+                        'as C99 (gcc) and C++17 (g++) - the includes-only unit also under -std=c11, -std=c2x, -std=c++98 and -std=c++20 -, linked against the library and executed; every printed value must equal the '
                         'alone-dump, and field enumerators are mapped by execution of the generic writer to the bits they designate.  Every unit is '
                         'compiled at -O2 in two steps (includes only; then the dump), linked with a second unit including the same headers (a '
                         'definition leaking from a header breaks the link) and contains, for C, a direct-call behaviour probe of the format '
